@@ -61,6 +61,11 @@ pub fn make(transport: &str, kind: &str, offered: u64, legacy: bool, max_queue: 
                     }
                 }
             }
+            // ... and a window of any length the device cares to report, down to none at all
+            if a.rng.gen_range(0..5) == 0 {
+                let k = if a.rng.gen_bool(0.3) { 0 } else { a.rng.gen_range(0..=c.len()) };
+                c.truncate(k);
+            }
             if kind == "sound" && c.len() >= 12 {
                 // VirtIOSound::new allocates one record per advertised stream: values that exhaust
                 // the machine's memory end in the allocator's abort, which is resource exhaustion
